@@ -21,19 +21,19 @@ Qed.
    command-line arguments are each within the per-string bound, and the program's file name fits in PATH_MAX and what a #! line adds (the name
    once more, an interpreter line of at most 256 bytes) in PATH_MAX + 256 *)
 Theorem xargs_batch_accepted c b rl env fn sb :
-  within_limits c b -> c_sys c = sys_budget (kernel_limit rl) env -> c_init c <> [] ->
+  within_limits c b -> c_sys c = sys_budget (kernel_limit rl) env -> charged c <> [] ->
   Forall (fun len => len + 1 <= MAX_ARG_STRLEN) (env_strings env) ->
-  Forall (fun len => len + 1 <= MAX_ARG_STRLEN) (c_init c) ->
+  Forall (fun len => len + 1 <= MAX_ARG_STRLEN) (charged c) ->
   fn + 1 <= 4096 -> sb <= 4096 + 256 ->
-  kernel_accepts rl {| argv := c_init c ++ map alen b; envp := env_strings env; fname := fn; shebang := sb |}.
+  kernel_accepts rl {| argv := charged c ++ map alen b; envp := env_strings env; fname := fn; shebang := sb |}.
 Proof.
   intros (_ & _ & _ & Hsys & Hsingle) Hb Hne He Hi Hf Hsb. split; cbn [argv envp fname shebang].
   - apply Forall_app. split; [|exact He]. apply Forall_app. split; [exact Hi|].
     apply Forall_map. eapply Forall_impl; [|exact Hsingle]. intros a Ha. unfold cost, max_single_arg in Ha. unfold MAX_ARG_STRLEN. lia.
   - rewrite Hb in Hsys. unfold sys_budget in Hsys. rewrite isum8, total8, env_size_spec in Hsys.
     rewrite strings_app, app_length, map_length. unfold env_strings in *. rewrite map_length in *.
-    assert (Hpos : 0 < strings (c_init c) + 8 * N.of_nat (length (c_init c))).
-    { destruct (c_init c); [congruence|]. cbn [length]. lia. }
+    assert (Hpos : 0 < strings (charged c) + 8 * N.of_nat (length (charged c))).
+    { destruct (charged c); [congruence|]. cbn [length]. lia. }
     lia.
 Qed.
 
@@ -140,7 +140,7 @@ Proof.
 Qed.
 
 Theorem oversize_status c tmpl a outs :
-  charge_init (limiters0 c) (c_init c) = Some tmpl -> c_replace c = false ->
+  charge_init (limiters0 c) (charged c) = Some tmpl -> c_replace c = false ->
   max_single_arg < cost a ->
   fst (xargs_run c [a] false outs) = 1.
 Proof.
